@@ -114,6 +114,10 @@ class C13(Check):
                "labels": rng.choice([0, 2, 7, 300]),
                "legacy": rng.random() < 0.3,
                "kill": bool(tier == "thorough" and rng.random() < 0.15),
+               # library use: two convert_chunks() calls in one process (the
+               # second one from a plain source), default options
+               "library_pair": bool(copy_info and src_kind in (
+                   "file", "sharded") and rng.random() < 0.5),
                "blksize": rng.choice([512, 4096, 65536]),
                "salt": rng.randrange(1000)}
         return {"scenario": scn}
@@ -208,9 +212,45 @@ class C13(Check):
                 mode = "nginx"      # the documented rule set for deep layout
             server = SimServer(fs, SRC, "/ds/", mode, "416", log)
             log.add("ARGV", argv)
+            lib = bool(scn.get("library_pair")) and not scn["kill"]
+            SRC2, DST2 = "/simfs/srv/ds2", "/simfs/out2"
+            model2 = {}
+            sinfo2 = None
+            if lib:
+                sinfo2 = info_for(scn["enc"], scn["dtype"], "src", None)
+                fs.dirs[SRC2] = True
+                fs.dirs[DST2] = True
+
+                def build2():
+                    acc = get_accessor_for_url(SRC2, {"flat": True,
+                                                      "gzip": False})
+                    pio = precomputed_io.get_IO_for_new_dataset(sinfo2, acc)
+                    for si, s_ in enumerate(sinfo2["scales"]):
+                        for co in dsutil.chunk_grid(s_["size"],
+                                                    s_["chunk_sizes"][0]):
+                            arr = dsutil.voxels(
+                                scn["dtype"], scn["nchan"], co,
+                                scn["salt"] + 50 + si,
+                                labels if scn["enc"] != "raw" else None)
+                            pio.write_chunk(arr, s_["key"], co)
+                            model2[(s_["key"], co)] = arr
+                pr0 = simproc.run_process(build2, fs=fs)
+                if pr0.status != 0:
+                    raise core.HarnessError("building source 2 failed: "
+                                            f"{pr0.exc}")
+
+                def two_calls():
+                    convert_chunks.convert_chunks(src_url, DST,
+                                                  copy_info=True)
+                    convert_chunks.convert_chunks(SRC2, DST2, copy_info=True)
+                res.probe("library_two_calls")
             with serving(server):
-                pr = simproc.run_process(convert_chunks.main, argv, fs=fs,
-                                         run_exit_handlers=not scn["kill"])
+                if lib:
+                    pr = simproc.run_process(two_calls, fs=fs)
+                else:
+                    pr = simproc.run_process(
+                        convert_chunks.main, argv, fs=fs,
+                        run_exit_handlers=not scn["kill"])
             log.add("EXIT", pr.status, pr.exc, pr.handler_errors)
             where = (f"convert-chunks {' '.join(argv[1:])} "
                      f"[{scn['src_kind']} {scn['enc']}/{scn['dtype']} -> "
@@ -266,6 +306,22 @@ class C13(Check):
                         break
                     else:
                         res.probe("kill_left_" + g[0])
+                if lib and not res.violations:
+                    got2 = dsutil.read_dataset(DST2, sinfo2)
+                    for (key, co), arr in sorted(model2.items(),
+                                                 key=lambda kv: kv[0]):
+                        g = got2[(key, co)]
+                        if not (g[0] == "ok" and g[1].shape == arr.shape
+                                and np.array_equal(g[1], arr)):
+                            res.violate(
+                                "C13/second-conversion",
+                                f"{where}: a second convert_chunks() call in "
+                                "the same process (plain source, "
+                                f"--copy-info) left chunk {key} {co} "
+                                f"{g[0]} ({g[1] if g[0] != 'ok' else 'other values'})",
+                                key="C13/second-conversion/" + str(
+                                    g[1] if g[0] != "ok" else "values"))
+                            break
         if d_sharded and not scn["kill"] and pr.n_handlers:
             res.probe("dest_sharded_flushed_by_exit_handler")
         if scn["src_kind"].startswith("http"):
@@ -299,6 +355,7 @@ class C13(Check):
                     scn, scales=scn["scales"][:j] + scn["scales"][j + 1:])}
         for k, simple in (("nchan", 1), ("sgzip", False), ("dgzip", False),
                           ("sflat", True), ("dflat", True), ("legacy", False),
+                          ("library_pair", False),
                           ("labels", 2), ("blksize", 4096)):
             if scn[k] != simple:
                 yield {"scenario": dict(scn, **{k: simple})}
